@@ -531,6 +531,42 @@ def it_next(E, st, fr, bi, it):
             d2["b"] = nb
             outs.append((item2, Md("iter", d2), s3))
         return outs
+    if k == "chunks":
+        inner = it.d["inner"]
+        pos, end = inner.d["pos"], inner.d["end"]
+        size = it.d["size"]
+        r = E.decide_cmp(st, "Lt", pos, end)
+        outs = []
+        if r is not False:
+            s2 = st if r is True else st.copy()
+            try:
+                if r is None:
+                    E.assume_cmp(s2, "Lt", pos.vid, end.vid)
+                lim = E.binop(s2, "Add", pos, size, pos.ty, False)
+                cend = int_min(E, s2, end, lim)
+                if cend.vid != pos.vid and s2.lo(size) >= 1:
+                    if s2.const(cend) is None or s2.const(pos) is None:
+                        s2.add_fact(pos.vid, cend.vid, -1)                 # at least one element
+                        if s2.hi(size) != INF:
+                            s2.add_fact(cend.vid, pos.vid, s2.hi(size))    # at most `size`
+                di = dict(inner.d)
+                di["pos"] = cend
+                d = dict(it.d)
+                d["inner"] = Md("iter", di)
+                dc = dict(inner.d)
+                dc["end"] = cend
+                outs.append((Md("iter", dc), Md("iter", d), s2))
+            except Diverge:
+                pass
+        if r is not True:
+            s3 = st if r is False else st.copy()
+            try:
+                if r is None:
+                    E.assume_cmp(s3, "Ge", pos.vid, end.vid)
+                outs.append((None, it, s3))
+            except Diverge:
+                pass
+        return outs
     if k == "bits":
         # bit_vec iterator: bools
         pos, end = it.d["pos"], it.d["end"]
@@ -579,6 +615,17 @@ def it_len(E, st, it):
     """I value: number of remaining items (exact abstraction where possible)"""
     k = it.d["k"]
     usz = E.ctx.usize_ty()
+    if k == "chunks":
+        inner = it.d["inner"]
+        rem = it_len(E, st, inner)
+        size = it.d["size"]
+        sz = st.const(size)
+        if sz is None or sz <= 0:
+            return E.ctx.mk_int(st, 0, st.hi(rem), rem.ty)
+        lo, hi = st.itv[rem.vid]
+        z = E.ctx.mk_int(st, -((-lo) // sz), (-((-hi) // sz)) if hi != INF else ISIZE_MAX, rem.ty)
+        st.prov[z.vid] = ("ceildiv", (rem.vid,), sz)
+        return z
     if k in ("slice", "range", "range_rev", "bits"):
         pos, end = it.d["pos"], it.d["end"]
         r = E.decide_cmp(st, "Le", pos, end)
@@ -673,6 +720,9 @@ def it_smash(E, st, it):
     for f in ("inner", "a", "b"):
         if f in d and type(d[f]) is Md:
             d[f] = it_smash(E, st, d[f])
+    if k == "chunks":
+        # any chunk start: pos of the inner iterator anywhere, but at least one element left is decided by next()
+        return Md("iter", d)
     if k == "enumerate":
         c = it.d["count"]
         if it.d.get("alias"):
@@ -751,7 +801,17 @@ def m_iter_adapt(kind):
         if kind == "skip":
             return ret1(it_advance(E, st, it, args[1]), st)
         if kind == "take":
+            if it.d["k"] in ("bits", "slice", "range"):
+                pos, end = it.d["pos"], it.d["end"]
+                lim = E.binop(st, "Add", pos, args[1], pos.ty, False)
+                d = dict(it.d)
+                d["end"] = int_min(E, st, end, lim)
+                return ret1(Md("iter", d), st)
             return ret1(Md("iter", {"k": "take", "inner": it, "n": args[1]}), st)
+        if kind == "chunks":
+            if it.d["k"] not in ("bits", "slice", "range"):
+                raise Unsupported("chunks over " + it.d["k"])
+            return ret1(Md("iter", {"k": "chunks", "inner": it, "size": args[1]}), st)
         if kind == "chain":
             other = args[1]
             o = iter_arg(E, st, other)
@@ -836,6 +896,42 @@ def m_range_inclusive_next(E, st, fr, bi, callee, args, dest_ty):
     return outs
 
 
+def m_deref_model(E, st, fr, bi, callee, args, dest_ty):
+    return ret1(deref2(E, st, args[0]), st)
+
+
+def m_iter_anyall(E, st, fr, bi, callee, args, dest_ty):
+    is_all = "::all::<" in callee.name
+    p = args[0]
+    it = iter_arg(E, st, p)
+    fty = fn_generic_types(callee)[-1]
+    n = it_len(E, st, it)
+    empty_certain = st.hi(n) == 0
+    if empty_certain:
+        return ret1(E.mkbool(st, 1 if is_all else 0), st)
+    mp = Md("iter", {"k": "map", "inner": it, "f": args[1], "fty": fty})
+    with pinned(E.ctx, n, it):
+        r = it_elem(E, st, fr, bi, mp)
+    val = None
+    if type(r) is I:
+        lo, hi = st.itv[r.vid]
+        if is_all and lo == hi == 1:
+            val = 1                      # predicate holds for every possible element
+        elif is_all and lo == hi == 0 and st.lo(n) > 0:
+            val = 0
+        elif not is_all and lo == hi == 0:
+            val = 0
+        elif not is_all and lo == hi == 1 and st.lo(n) > 0:
+            val = 1
+    # the iterator is consumed (short-circuiting leaves it somewhere in between)
+    try:
+        write_through(E, st, p, it_smash(E, st, it)) if type(p) is Pt and p.key is not None else None
+    except Unsupported:
+        pass
+    b = E.mkbool(st, val, ("anyall", (), (is_all,)))
+    return ret1(b, st)
+
+
 def m_iter_sum(E, st, fr, bi, callee, args, dest_ty):
     it = iter_arg(E, st, args[0])
     t = E.prog.ty(dest_ty)
@@ -868,6 +964,25 @@ def m_iter_count(E, st, fr, bi, callee, args, dest_ty):
 def m_collect(E, st, fr, bi, callee, args, dest_ty):
     it = iter_arg(E, st, args[0])
     t = E.prog.ty(dest_ty)
+    if t.tag == "Adt" and t.adt["name"] == "std::result::Result":
+        okty = E.prog.ty(t.adt["variants"][OK]["fields"][0]["ty"])
+        if not (okty.tag == "Adt" and okty.adt["name"] == "std::vec::Vec"):
+            return None
+        n = it_len(E, st, it)
+        with pinned(E.ctx, n, it):
+            item = it_elem(E, st, fr, bi, it)
+        if item is None:
+            return ret1(En({OK: (Sq(BOT, n, None, None),)}), st)
+        if type(item) is not En:
+            raise Unsupported("collect::<Result<..>> over non-Result items")
+        vs = {}
+        if OK in item.vs:
+            vs[OK] = (Sq(item.vs[OK][0], n, None, None),)
+        if ERR in item.vs:
+            vs[ERR] = item.vs[ERR]
+        if st.lo(n) == 0 and OK not in vs:
+            vs[OK] = (Sq(BOT, n, None, None),)
+        return ret1(En(vs), st)
     if not (t.tag == "Adt" and t.adt["name"] == "std::vec::Vec"):
         return None
     n = it_len(E, st, it)
@@ -1213,6 +1328,24 @@ def m_xof_read(E, st, fr, bi, callee, args, dest_ty):
     return ret1(UNIT, st)
 
 
+def m_transform_assumed(E, st, fr, bi, callee, args, dest_ty):
+    """only active when a rule sets hooks['assume_transform'] (quick tier, n = 1024): the in-place NTT
+    keeps the slice length and yields canonical field elements (C12); its own index arithmetic is an
+    explicit *assumed* obligation."""
+    reason = E.ctx.hooks.get("assume_transform")
+    if not reason:
+        return None
+    s = as_seq(E, st, args[0])
+    E.ctx.obligation("transform-layer", fr, bi, False, f"index arithmetic of {callee.name.split('::')[-1]} at len {st.itv[s.len.vid]} not analysed in this tier", callee.name.split("::")[-1]).assumed = reason
+    u32 = E.ctx.ty_by_str("u32")
+    new = Sq(Ag((E.ctx.mk_int(st, 0, 12288, u32, taint=True),)), s.len, None, None)
+    p = args[0]
+    while type(p) is Pt and p.key is not None and type(E.load(st, p.key, p.proj)) is Pt:
+        p = E.load(st, p.key, p.proj)
+    write_through(E, st, p, new)
+    return ret1(UNIT, st)
+
+
 # ---------------------------------------------------------------------------------- registry
 def build(ctx):
     M = Models(ctx)
@@ -1249,11 +1382,16 @@ def build(ctx):
     A(r"^<std::vec::Vec<.*> as std::convert::TryInto<\[.*\]>>::try_into$", m_try_from_slice_array)
     A(r"^<\[.*\] as std::convert::TryFrom<std::vec::Vec<.*>>>::try_from$", m_try_from_slice_array)
     # iterators
-    A(r"^<.* as std::iter::IntoIterator>::into_iter$", m_identity)
     A(r"^(core|std)::iter::range::<impl std::iter::Iterator for std::ops::Range<.*>>::next$", m_iter_next)
     A(r"^(core|std)::iter::range::<impl std::iter::Iterator for std::ops::RangeInclusive<.*>>::next$", m_range_inclusive_next)
     A(r"^<std::(slice|vec|iter)::.* as std::iter::Iterator>::next$", m_iter_next)
     A(r"^<bit_vec::Iter<.*> as std::iter::Iterator>::next$", m_iter_next)
+    A(r"^<.* as itertools::Itertools>::chunks$", m_iter_adapt("chunks"))
+    A(r"^itertools::Itertools::chunks$", m_iter_adapt("chunks"))
+    A(r"^<&itertools::IntoChunks<.*> as std::iter::IntoIterator>::into_iter$", m_deref_model)
+    A(r"^<itertools::(Chunks|Chunk)<.*> as std::iter::Iterator>::next$", m_iter_next)
+    A(r"^<.* as std::iter::Iterator>::(any|all)::<", m_iter_anyall)
+    A(r"^std::iter::Iterator::(any|all)::<", m_iter_anyall)
     for k in ("map", "copied", "cloned", "enumerate", "zip", "skip", "take", "chain", "rev"):
         A(r"^<.* as std::iter::Iterator>::" + k + r"(::<.*>)?$", m_iter_adapt(k))
         A(r"^std::iter::Iterator::" + k + r"(::<.*>)?$", m_iter_adapt(k))
@@ -1275,6 +1413,7 @@ def build(ctx):
     A(r"^bit_vec::BitVec(::<.*>)?::append$", m_bitvec_append)
     A(r"^bit_vec::BitVec(::<.*>)?::iter$", m_bitvec_iter)
     A(r"^<&bit_vec::BitVec(<.*>)? as std::iter::IntoIterator>::into_iter$", m_bitvec_iter)
+    A(r"^bit_vec::<impl std::iter::IntoIterator for &bit_vec::BitVec(<.*>)?>::into_iter$", m_bitvec_iter)
     A(r"^bit_vec::BitVec(::<.*>)?::to_bytes$", m_bitvec_to_bytes)
     A(r"^<bit_vec::BitVec(<.*>)? as std::iter::FromIterator<bool>>::from_iter::<", m_bitvec_from_iter)
     # numbers
@@ -1307,4 +1446,6 @@ def build(ctx):
     A(r"^<.*Shake256Core> as sha3::digest::Update>::update$", m_shake_update)
     A(r"^<.*Shake256Core> as sha3::digest::ExtendableOutput>::finalize_xof$", m_shake_finalize)
     A(r"^<.*Shake256ReaderCore> as sha3::digest::XofReader>::read$", m_xof_read)
+    A(r"^<.* as std::iter::IntoIterator>::into_iter$", m_identity)
+    A(r"^<falcon_rust::falcon_field::Felt as falcon_rust::cyclotomic_fourier::CyclotomicFourier>::(fft|ifft)$", m_transform_assumed)
     return M
